@@ -103,8 +103,7 @@ Section Net.
                          end in
         match e with
         | EFire | EStop => true
-        | ETick rho sy | ETickSF rho sy =>
-            (rho =? current_round (y_time y) (c_period C) (c_genesis C)) && served sy
+        | ETick _ sy | ETickSF _ sy => served sy
         | ERestart sy => served sy
         | ETransition _ g' => g_thr g' =? thr_of (g_poly g')
         | _ => false
